@@ -10,12 +10,15 @@ def _lcg(seed):
     return nxt
 
 
-def build(name, nT=3, nL=3, nS=3, n_in=2, flavor="det", miss_every=7, all_missing_loc=False, seed=1, members=3):
+def build(name, nT=3, nL=3, nS=3, n_in=2, flavor="det", miss_every=7, all_missing_loc=False, seed=1, members=3, degenerate=False):
     rnd = _lcg(seed)
     times = [946684800 + 86400 * 15 * d + 3600 * 6 * (d % 2) for d in range(nT)]      # Jan 2000, every 15 days, 00/06 UTC
     leads = [0.0, 6.0, 12.0, 24.0, 30.0, 48.0][:nL]
     locs = [{"id": i * 3 + 1, "lat": 50.0 + 2.5 * i, "lon": -120.0 + 7.25 * i, "elev": 10.0 + 150.5 * i} for i in range(nS)]
     truth = [[[(rnd(41) - 20) / 4.0 for _ in range(nS)] for _ in range(nL)] for _ in range(nT)]
+    if degenerate:
+        # zero-variance slices: the first location observes the same value every time (a dry station), the first lead time ditto
+        truth = [[[1.0 if (c == 0 or b == 0) else truth[a][b][c] for c in range(nS)] for b in range(nL)] for a in range(nT)]
     thresholds = [0.0, 1.0, 2.5]
     quantiles = [0.1, 0.5, 0.9]
     inputs = []
@@ -27,6 +30,10 @@ def build(name, nT=3, nL=3, nS=3, n_in=2, flavor="det", miss_every=7, all_missin
         d = {"name": "%s_f%d" % (name, i), "ti": list(range(nT)), "li": list(range(nL)), "si": list(range(nS))}
         d["obs"] = [[[None if miss(a, b, c, 1) else truth[a][b][c] for c in range(nS)] for b in range(nL)] for a in range(nT)]
         d["fcst"] = [[[None if miss(a, b, c, 2) else truth[a][b][c] + (rnd(17) - 8) / 4.0 for c in range(nS)] for b in range(nL)] for a in range(nT)]
+        if degenerate:
+            # ... the last location is forecast perfectly by every file, and the first file forecasts one value at the second location
+            d["fcst"] = [[[None if d["fcst"][a][b][c] is None else (truth[a][b][c] if c == nS - 1 else (2.0 if (c == 1 and i == 0) else d["fcst"][a][b][c]))
+                           for c in range(nS)] for b in range(nL)] for a in range(nT)]
         if flavor in ("prob", "full"):
             d["thresholds"] = list(thresholds)
             d["quantiles"] = list(quantiles)
@@ -80,6 +87,8 @@ SHAPES = {
     "full2-nomissing": dict(flavor="full", n_in=2, miss_every=0, seed=11, nT=4, nL=4, nS=3),
     "full2-single-time-lead": dict(flavor="full", n_in=2, nT=1, nL=1, nS=3, seed=12, miss_every=0),
     "full2-one-case": dict(flavor="full", n_in=2, nT=1, nL=1, nS=1, seed=13, miss_every=0),
+    "full2-more-leads-than-times": dict(flavor="full", n_in=2, nT=2, nL=5, nS=3, seed=15, miss_every=13),
+    "full2-zero-variance": dict(flavor="full", n_in=2, nT=4, nL=3, nS=4, seed=14, miss_every=11, degenerate=True),
 }
 
 
